@@ -472,6 +472,17 @@ func runC12(c *fw.Ctx) {
 		}
 		idx += n
 	}
+	if c.Block == 0 && c.Begin(idx+500000) {
+		// nil and empty inputs
+		for ci := range c12cmps {
+			c12seq(c, nil, ci)
+			c12seq(c, []int{}, ci)
+		}
+		c12lcs(c, nil, nil)
+		c12lcs(c, nil, []int{1, 2})
+		c12lcs(c, []int{1}, nil)
+		c12lcs(c, []int{}, []int{})
+	}
 	// random
 	nr := c.Pick(120, 1500)
 	for k := 0; k < nr; k++ {
